@@ -44,6 +44,8 @@ SCHEMAS = {
     "S_title": ({"type": "object", "required": ["title"], "properties": {"title": {"type": "string", "minLength": 2}}}, [{"title": "ab"}], [{"title": "a"}, {"id": 1}, 5]),
     "S_arr": ({"type": "array", "items": {"type": "string"}, "maxItems": 2}, [[], ["a", "b"]], [["a", "b", "c"], [1], {"a": 1}]),
     "S_nullable": ({"type": "object", "nullable": True, "properties": {"n": {"type": "integer", "minimum": 0}}}, [None, {"n": 0}, {}], [{"n": -1}, 3, "x"]),
+    # `nullable: false` spelled out is the same as leaving it out
+    "S_notnull": ({"type": "object", "nullable": False, "properties": {"n": {"type": "integer", "nullable": False}}}, [{"n": 1}, {}], [None, {"n": None}, 3]),
     "S_write1": (
         {"type": "object", "required": ["id"], "properties": {"id": {"type": "integer"}, "password": {"type": "string", "writeOnly": True}}},
         [{"id": 1}],
